@@ -226,7 +226,7 @@ def stepOutM (spec : Bool) (s : St) (ts : List String) : St × Option String :=
         let ks := s.outKeysL ++ outKeys rules
         let c := if ks.all (fun k => s.outL k == outProj k rules) then "unchanged" else "changed"
         let c := if s.outTaint.isEmpty then c else "?known:outlier-invalid-keeps-old:" ++ c
-        ({ s with outL := latestOutStep s.outL (.loadAll rules), outKeysL := outKeys rules, outTaint := [] }, some c)
+        ({ s with outL := latestOutStep s.outL (.loadAll rules), outKeysL := outKeys rules, outTaint := taintStep s.outTaint (.loadAll rules) }, some c)
       else let (s', o) := loadAllOut s.out rules; ({ s with out := s' }, some o.toString)
   | "loadres" :: _ :: res :: rest =>
     match parseOne rest with
@@ -234,14 +234,14 @@ def stepOutM (spec : Bool) (s : St) (ts : List String) : St × Option String :=
     | some rule =>
       let res := str res
       if spec then
-        let refused := match rule with | some r => outCheck r != .ok | none => false
+        let refused := outRefused rule
         let k := fun (c : String) => if refused || s.outTaint.contains res then "?known:outlier-invalid-keeps-old:" ++ c else c
         let c := if res = "" then "err"
                  else if rule.isNone then (if (s.outL res).isNone then "?known:empty-resource-reload:unchanged" else "changed")
                  else if s.outL res == rule then k "unchanged" else k "changed"
         if res = "" then (s, some c) else
         ({ s with outL := upd s.outL res rule, outKeysL := res :: s.outKeysL,
-                  outTaint := if refused then res :: s.outTaint else s.outTaint.filter (· ≠ res) }, some c)
+                  outTaint := taintStep s.outTaint (.loadRes res rule) }, some c)
       else let (s', o) := loadResOut s.out res rule; ({ s with out := s' }, some o.toString)
   | ["clear", _] =>
     if spec then ({ s with outL := fun _ => none, outKeysL := [], outTaint := [] }, some "ok")
@@ -250,7 +250,7 @@ def stepOutM (spec : Bool) (s : St) (ts : List String) : St × Option String :=
     let res := str res
     if spec then
       if res = "" then (s, some "err") else
-      ({ s with outL := upd s.outL res none, outTaint := s.outTaint.filter (· ≠ res) }, some "ok")
+      ({ s with outL := upd s.outL res none, outTaint := taintStep s.outTaint (.loadRes res none) }, some "ok")
     else let (s', o) := loadResOut s.out res none; ({ s with out := s' }, some (okOrErr o))
   | ["get", _] =>
     if spec then
